@@ -387,6 +387,45 @@ pub fn ctor(cx: &mut Ctx, iters: usize) {
             }
         }
     }
+    // samplers after a long run of rejections: the stream is scripted so that its first N candidate curve points are all ones
+    // the sampler must reject (y is odd -- "negative" when read as an encoding -- and on the curve), then it turns pseudo-random
+    {
+        use ark_std::{rand::{Rng as _, RngCore, Error}, UniformRand};
+        use ark_ff::{Field, PrimeField};
+        struct X(u64);
+        impl X { fn nx(&mut self) -> u64 { self.0 ^= self.0 << 13; self.0 ^= self.0 >> 7; self.0 ^= self.0 << 17; self.0 } }
+        struct Tape { tape: Vec<u8>, pos: usize, rec: bool, inner: X }
+        impl RngCore for Tape {
+            fn next_u32(&mut self) -> u32 { let mut b = [0u8; 4]; self.fill_bytes(&mut b); u32::from_le_bytes(b) }
+            fn next_u64(&mut self) -> u64 { let mut b = [0u8; 8]; self.fill_bytes(&mut b); u64::from_le_bytes(b) }
+            fn fill_bytes(&mut self, dest: &mut [u8]) {
+                if !self.rec && self.pos + dest.len() <= self.tape.len() {
+                    dest.copy_from_slice(&self.tape[self.pos..self.pos + dest.len()]); self.pos += dest.len();
+                } else {
+                    for ch in dest.chunks_mut(8) { let v = self.inner.nx().to_le_bytes(); let k = ch.len(); ch.copy_from_slice(&v[..k]); }
+                    if self.rec { self.tape.extend_from_slice(dest); }
+                }
+            }
+            fn try_fill_bytes(&mut self, dest: &mut [u8]) -> Result<(), Error> { self.fill_bytes(dest); Ok(()) }
+        }
+        let on_curve_y = |y: &Fq| { let yy = y.square(); let den = -Fq::ONE - Fq::from(3021u64) * yy; match den.inverse() { Some(di) => ((Fq::ONE - yy) * di).sqrt().is_some(), None => false } };
+        for (si, rounds) in [40usize, 130, 300, 1100].iter().enumerate() {
+            let mut rec = Tape { tape: Vec::new(), pos: 0, rec: true, inner: X(0x2545F4914F6CDD1D ^ (cx.rng.next() | 1)) };
+            let mut kept = 0;
+            while kept < *rounds {
+                let mark = rec.tape.len();
+                let y = <Fq as UniformRand>::rand(&mut rec);
+                let _greatest: bool = rec.gen();
+                if y.into_bigint().0[0] & 1 == 1 && on_curve_y(&y) { kept += 1; } else { rec.tape.truncate(mark); }
+            }
+            for which in 0..2 {
+                let mut rp = Tape { tape: rec.tape.clone(), pos: 0, rec: false, inner: X(0x9E3779B97F4A7C15 + si as u64) };
+                let d = format!("RNG stream whose first {} candidate points must all be rejected", rounds);
+                if which == 0 { let e = Element::rand(&mut rp); valid(cx, "Distribution<Element>::sample after a long run of rejections", e, d); }
+                else { let a = Affine::rand(&mut rp); valid(cx, "Distribution<AffinePoint>::sample after a long run of rejections", a.into(), d); }
+            }
+        }
+    }
     // uncompressed (de)serialisation: whatever the implementation does with Compress::No (the pinned code answers
     // unimplemented!()), it must not hand out a point outside the group
     {
